@@ -32,12 +32,12 @@ Excluded(i) == Internal[i][1] \in flagged /\ Internal[i][Len(Internal[i])] \in f
 
 (* ---- I: transcription of the code ---- *)
 \* get_angle_limited_edges: copy of the internal list, remove every interface whose two ends are flagged
-UsedCols == SelectSeq([i \in DOMAIN Internal |-> i], LAMBDA i : ~Excluded(i))
-\* the solver returns one value per used column, in column order; value k belongs to interface UsedCols[k]
-Solution == [k \in DOMAIN UsedCols |-> <<"sol", UsedCols[k]>>]
+Used == SelectSeq([i \in DOMAIN Internal |-> i], LAMBDA i : ~Excluded(i))
+\* the solver returns one value per used column, in column order; value k belongs to interface Used[k]
+Solution == [k \in DOMAIN Used |-> <<"sol", Used[k]>>]
 \* write-back: the k-th value is written onto the mesh edges of the k-th used interface
-EdgeTension == [i \in DOMAIN Internal |-> IF \E k \in DOMAIN UsedCols : UsedCols[k] = i
-                                           THEN Solution[CHOOSE k \in DOMAIN UsedCols : UsedCols[k] = i] ELSE <<"stale">>]
+EdgeTension == [i \in DOMAIN Internal |-> IF \E k \in DOMAIN Used : Used[k] = i
+                                           THEN Solution[CHOOSE k \in DOMAIN Used : Used[k] = i] ELSE <<"stale">>]
 \* get_solution_no_discarded
 RECURSIVE Reinsert(_, _, _)
 Reinsert(i, ptr, acc) ==
@@ -50,8 +50,8 @@ Result == IF Len(Internal) = Len(Solution) THEN Solution ELSE Reinsert(1, 1, <<>
 Aligned == Leaf => /\ Len(Result) = Len(Internal)
                    /\ \A i \in DOMAIN Internal : Result[i] = IF Excluded(i) THEN <<"minus_one">> ELSE <<"sol", i>>
 WriteBackAligned == Leaf => \A i \in DOMAIN Internal : ~Excluded(i) => EdgeTension[i] = <<"sol", i>>
-ExcludedIffBothEnds == Leaf => \A i \in DOMAIN Internal : (i \notin {UsedCols[k] : k \in DOMAIN UsedCols}) = Excluded(i)
-NothingFlaggedNothingExcluded == (Leaf /\ flagged = {}) => Len(UsedCols) = Len(Internal)
+ExcludedIffBothEnds == Leaf => \A i \in DOMAIN Internal : (i \notin {Used[k] : k \in DOMAIN Used}) = Excluded(i)
+NothingFlaggedNothingExcluded == (Leaf /\ flagged = {}) => Len(Used) = Len(Internal)
 \* vacuity guard (expected to be violated): some leaf excludes some but not all interfaces
-NoPartialExclusion == Leaf => (Len(UsedCols) = 0 \/ Len(UsedCols) = Len(Internal))
+NoPartialExclusion == Leaf => (Len(Used) = 0 \/ Len(Used) = Len(Internal))
 =============================================================================
